@@ -144,7 +144,7 @@ class Prop:
                 if ops[i][0] in ("remove", "remove_children", "move", "set_data", "rename", "sort", "meta", "filter", "del", "clear", "iter_remove"):
                     yield dict(kind="hist", univ=desc["univ"], ops=ops[:i] + ops[i + 1:])
             return
-        for h in mut.shrink_candidates(dict(univ=desc["univ"], ops=ops)):
+        for h in mut_ex.safe_shrink_candidates(dict(univ=desc["univ"], ops=ops)):
             yield dict(kind="hist", univ=h["univ"], ops=h["ops"])
 
     def run(self, desc) -> Case:
